@@ -12,12 +12,12 @@ use algebra_mc::refmodel::fieldmodel::{prime_to_u64, FieldModel, Fp2Model, Prime
 use algebra_mc::refmodel::zmod::from_limbs;
 use algebra_mc::seq::run_seq;
 use algebra_mc::toy::gen_curves::{SwA0P103B3, TeP101};
-use algebra_mc::toy::gen_fields::{D13, D43, D61, D7};
+use algebra_mc::toy::gen_fields::{D13, D29, D43, D61, D7};
 use algebra_mc::toycurve::{SwToy, TeToy};
 use ark_ec::hashing::curve_maps::wb::WBConfig;
 use ark_ec::short_weierstrass::{self as sw, SWCurveConfig};
 use ark_ec::twisted_edwards::{self as te, TECurveConfig};
-use ark_ec::{AdditiveGroup, AffineRepr, CurveConfig, CurveGroup, ScalarMul};
+use ark_ec::{AdditiveGroup, AffineRepr, CurveConfig, CurveGroup, PrimeGroup, ScalarMul};
 use ark_ff::{Field, Fp2, Fp2Config, Fp3, Fp3Config, MontFp, PrimeField};
 use ark_std::Zero;
 use num_bigint::BigUint;
@@ -60,29 +60,79 @@ impl<P: TECurveConfig> Raw for te::Affine<P> {
     }
 }
 
-/// every way the API offers to construct the identity
+/// every way the API offers to construct the identity, the (undocumented) `Default` value, the checked
+/// constructor applied to the coordinates of an existing value and the fixed generator
 pub trait Ctors: Sized {
     fn identities() -> Vec<(&'static str, Self)>;
+    /// `Default::default()`: no rustdoc says what it is, so it is observed (class), not judged
+    fn default_value() -> Self;
+    /// the checked constructor (`new`) on the coordinates of `self` (asserts curve + subgroup membership)
+    fn checked(&self) -> Self;
+    fn fixed_generator() -> Self;
 }
 impl<P: SWCurveConfig> Ctors for sw::Projective<P> {
     fn identities() -> Vec<(&'static str, Self)> {
-        vec![("Projective::zero()", <Self as Zero>::zero()), ("Projective::ZERO", <Self as AdditiveGroup>::ZERO), ("Projective::default()", Self::default())]
+        vec![("Projective::zero()", <Self as Zero>::zero()), ("Projective::ZERO", <Self as AdditiveGroup>::ZERO)]
+    }
+    fn default_value() -> Self {
+        Self::default()
+    }
+    fn checked(&self) -> Self {
+        Self::new(self.x, self.y, self.z)
+    }
+    fn fixed_generator() -> Self {
+        <Self as PrimeGroup>::generator()
     }
 }
 impl<P: SWCurveConfig> Ctors for sw::Affine<P> {
     fn identities() -> Vec<(&'static str, Self)> {
-        vec![("Affine::identity()", Self::identity()), ("Affine::zero()", <Self as AffineRepr>::zero()), ("Affine::default()", Self::default())]
+        vec![("Affine::identity()", Self::identity()), ("Affine::zero()", <Self as AffineRepr>::zero())]
+    }
+    fn default_value() -> Self {
+        Self::default()
+    }
+    fn checked(&self) -> Self {
+        Self::new(self.x, self.y)
+    }
+    fn fixed_generator() -> Self {
+        <Self as AffineRepr>::generator()
     }
 }
 impl<P: TECurveConfig> Ctors for te::Projective<P> {
     fn identities() -> Vec<(&'static str, Self)> {
-        vec![("Projective::zero()", <Self as Zero>::zero()), ("Projective::ZERO", <Self as AdditiveGroup>::ZERO), ("Projective::default()", Self::default())]
+        vec![("Projective::zero()", <Self as Zero>::zero()), ("Projective::ZERO", <Self as AdditiveGroup>::ZERO)]
+    }
+    fn default_value() -> Self {
+        Self::default()
+    }
+    fn checked(&self) -> Self {
+        Self::new(self.x, self.y, self.t, self.z)
+    }
+    fn fixed_generator() -> Self {
+        <Self as PrimeGroup>::generator()
     }
 }
 impl<P: TECurveConfig> Ctors for te::Affine<P> {
     fn identities() -> Vec<(&'static str, Self)> {
-        vec![("Affine::zero() (inherent)", Self::zero()), ("AffineRepr::zero()", <Self as AffineRepr>::zero()), ("Affine::default()", Self::default())]
+        vec![("Affine::zero() (inherent)", Self::zero()), ("AffineRepr::zero()", <Self as AffineRepr>::zero())]
     }
+    fn default_value() -> Self {
+        Self::default()
+    }
+    fn checked(&self) -> Self {
+        Self::new(self.x, self.y)
+    }
+    fn fixed_generator() -> Self {
+        <Self as AffineRepr>::generator()
+    }
+}
+/// run a library call whose panic is a result of THIS call site (not of the whole case)
+pub fn guarded<T>(f: impl FnOnce() -> T) -> Result<T, String> {
+    std::panic::catch_unwind(std::panic::AssertUnwindSafe(f)).map_err(|p| {
+        let at = LAST_PANIC_LOC.with(|c| c.borrow().clone());
+        let m = p.downcast_ref::<&str>().map(|s| s.to_string()).or_else(|| p.downcast_ref::<String>().cloned()).unwrap_or_default();
+        format!("panic at {at}: {m}")
+    })
 }
 
 fn wanted(ctx: &Ctx, name: &str) -> bool {
@@ -98,11 +148,44 @@ fn wanted(ctx: &Ctx, name: &str) -> bool {
     }
     true
 }
-const SUFFIXES: [&str; 4] = ["pairs", "unary", "sum", "normalize_batch"];
+const SUFFIXES: [&str; 5] = ["pairs", "unary", "sum", "normalize_batch", "normalize_batch_large"];
 fn wanted_prefix(ctx: &Ctx, prefix: &str) -> bool {
     SUFFIXES.iter().any(|s| wanted(ctx, &format!("{prefix}/{s}")))
 }
 
+/// every vector over {0, 1, 2} of each length in lo..=hi (entry kinds of the mixed batches of `batch`)
+fn kind_patterns(lo: u32, hi: u32) -> Vec<Vec<u8>> {
+    let mut out = Vec::new();
+    for len in lo..=hi {
+        for mut i in 0..3u64.pow(len) {
+            out.push(
+                (0..len)
+                    .map(|_| {
+                        let d = (i % 3) as u8;
+                        i /= 3;
+                        d
+                    })
+                    .collect(),
+            );
+        }
+    }
+    out
+}
+/// shipped curves (one SW, one TE) that also get the long normalize_batch inputs, and the lengths
+const LARGE_BATCH_CURVES: [&str; 2] = ["bls12_381/g1", "ed_on_bls12_381/jubjub"];
+const LARGE_BATCH_LENS: [usize; 5] = [1023, 1024, 1025, 2049, 3000];
+/// the fixed mixed batches used on every shipped curve (lengths 5..=9)
+fn ship_patterns() -> Vec<Vec<u8>> {
+    vec![
+        vec![2, 0, 1, 2, 0],
+        vec![0, 0, 2, 1, 2, 0],
+        vec![1, 2, 0, 0, 2, 1, 2],
+        vec![2, 2, 1, 0, 2, 1, 2, 0],
+        vec![0, 2, 2, 1, 0, 2, 1, 2, 0],
+        vec![2, 1, 2, 2, 1, 2, 2, 1, 2],
+        vec![0, 0, 0, 0, 0, 0, 2, 0, 0],
+    ]
+}
 /// number of vectors of length 0..=maxlen over s symbols
 fn vec_count(s: u64, maxlen: u32) -> u64 {
     (0..=maxlen).map(|k| s.pow(k)).sum()
@@ -145,6 +228,17 @@ macro_rules! engine {
                 fn add(&self, a: &Self::Pt, b: &Self::Pt) -> Option<Self::Pt>;
                 fn neg(&self, a: &Self::Pt) -> Self::Pt;
                 fn aff(&self, a: &Self::Pt) -> Affine<P>;
+                /// further affine encodings of the same point, canonical one excluded (SW: the identity with
+                /// non-zero hidden x / y behind `infinity: true`)
+                fn aff_alts(&self, _a: &Self::Pt) -> Vec<Affine<P>> {
+                    Vec::new()
+                }
+                /// the configured generator and (model) membership in the prime-order subgroup
+                fn gen(&self) -> Self::Pt;
+                fn in_subgroup(&self, a: &Self::Pt) -> bool;
+                /// the projective representative of a finite point with Z = z (z a small non-zero integer), built from the
+                /// model's affine coordinates with field multiplications only
+                fn rep_z(&self, a: &Self::Pt, z: u64) -> Projective<P>;
                 /// every projective representation in the enumerated space (canonical / Z = 1 first)
                 fn reps(&self, a: &Self::Pt) -> Vec<(Projective<P>, Tag)>;
                 /// does `q` represent `want` (decoded by the model; TE: also T consistent)
@@ -239,28 +333,43 @@ macro_rules! engine {
                     if loc.sampling() {
                         loc.sample(format!("{}: P={} Q={} P+Q={} P-Q={} ({} x {} representations)", o.name(), o.show(pi), o.show(pj), o.show(&sum), o.show(&dif), ri.len(), rj.len()));
                     }
-                    // ---- affine (+) affine
-                    {
-                        let w = || format!("P={} Q={} (both affine)", o.show(pi), o.show(pj));
-                        res(o, loc, "aff+aff", &(a + b), &sum, true, &w);
-                        res(o, loc, "aff+&aff", &(a + &b), &sum, deep_all, &w);
-                        res(o, loc, "aff-aff", &(a - b), &dif, true, &w);
-                        res(o, loc, "aff-&aff", &(a - &b), &dif, deep_all, &w);
-                        loc.check_at("aff==aff", (a == b) == same && (a != b) != same, || format!("{}: {} : == gives {}", o.name(), w(), a == b));
+                    // every affine encoding of the operands (canonical first; SW identity: hidden x / y too)
+                    let mut affs_i = vec![a];
+                    affs_i.extend(o.aff_alts(pi));
+                    let mut affs_j = vec![b];
+                    affs_j.extend(o.aff_alts(pj));
+                    if IS_SW {
+                        loc.class_if(affs_i.len() > 1 || affs_j.len() > 1, "sw:affine_identity_hidden_xy");
+                        let is00 = |q: &O::Pt| o.xy(q).map_or(false, |(x, y)| x.is_zero() && y.is_zero());
+                        loc.class_if((oi == 2 && is00(pi)) || (oj == 2 && is00(pj)), "sw:point_(0,0)_is_2_torsion");
                     }
-                    // ---- affine (+) projective
-                    for (q, _) in &rj {
-                        let w = || format!("P={} affine, Q={} as {}", o.show(pi), o.show(pj), q.raw());
-                        res(o, loc, "aff+proj", &(a + *q), &sum, true, &w);
-                        res(o, loc, "aff+&proj", &(a + q), &sum, deep_all, &w);
-                        res(o, loc, "aff-proj", &(a - *q), &dif, true, &w);
-                        res(o, loc, "aff-&proj", &(a - q), &dif, deep_all, &w);
-                        loc.check_at("aff==proj", (a == *q) == same, || format!("{}: {} : == gives {}", o.name(), w(), a == *q));
+                    for (ka, a) in affs_i.iter().copied().enumerate() {
+                        // ---- affine (+) affine
+                        for (kb, b) in affs_j.iter().copied().enumerate() {
+                            let w = || format!("P={} affine {}, Q={} affine {}", o.show(pi), a.raw(), o.show(pj), b.raw());
+                            res(o, loc, "aff+aff", &(a + b), &sum, true, &w);
+                            res(o, loc, "aff+&aff", &(a + &b), &sum, deep_all, &w);
+                            res(o, loc, "aff-aff", &(a - b), &dif, true, &w);
+                            res(o, loc, "aff-&aff", &(a - &b), &dif, deep_all, &w);
+                            if ka == 0 && kb == 0 {
+                                // (`==` on two affine values is judged on the canonical encodings only)
+                                loc.check_at("aff==aff", (a == b) == same && (a != b) != same, || format!("{}: {} : == gives {}", o.name(), w(), a == b));
+                            }
+                        }
+                        // ---- affine (+) projective
+                        for (q, _) in &rj {
+                            let w = || format!("P={} affine {}, Q={} as {}", o.show(pi), a.raw(), o.show(pj), q.raw());
+                            res(o, loc, "aff+proj", &(a + *q), &sum, true, &w);
+                            res(o, loc, "aff+&proj", &(a + q), &sum, deep_all, &w);
+                            res(o, loc, "aff-proj", &(a - *q), &dif, true, &w);
+                            res(o, loc, "aff-&proj", &(a - q), &dif, deep_all, &w);
+                            loc.check_at("aff==proj", (a == *q) == same, || format!("{}: {} : == gives {}", o.name(), w(), a == *q));
+                        }
                     }
                     for (p, _) in &ri {
                         // ---- projective (+) affine (mixed addition)
-                        {
-                            let w = || format!("P={} as {}, Q={} affine", o.show(pi), p.raw(), o.show(pj));
+                        for b in affs_j.iter().copied() {
+                            let w = || format!("P={} as {}, Q={} affine {}", o.show(pi), p.raw(), o.show(pj), b.raw());
                             res(o, loc, "proj+aff", &(*p + b), &sum, true, &w);
                             res(o, loc, "proj+&aff", &(*p + &b), &sum, deep_all, &w);
                             let mut t = *p;
@@ -349,14 +458,24 @@ macro_rules! engine {
                     }
                     loc.check_at("aff.is_on_curve", a.is_on_curve(), || format!("{}: {}: is_on_curve() false", o.name(), wa()));
                     loc.check_at("aff.is_zero", AffineRepr::is_zero(&a) == is_id, || format!("{}: {}: is_zero() = {}", o.name(), wa(), AffineRepr::is_zero(&a)));
+                    // xy(): the coordinates of a finite point; None for the SW point at infinity.  The TE identity (0, 1)
+                    // HAS coordinates: None and Some((0, 1)) are both accepted there, which one is observed as a class
                     let xy = o.xy(pi);
-                    loc.check_at("aff.xy", a.xy() == xy && a.x() == xy.map(|t| t.0) && a.y() == xy.map(|t| t.1), || format!("{}: {}: xy() = {:?}", o.name(), wa(), a.xy()));
+                    let got_xy = a.xy();
+                    let te_id_coords = !IS_SW && is_id && got_xy == Some((<P::BaseField as AdditiveGroup>::ZERO, <P::BaseField as Field>::ONE));
+                    loc.check_at("aff.xy", (got_xy == xy || te_id_coords) && a.x() == got_xy.map(|t| t.0) && a.y() == got_xy.map(|t| t.1), || format!("{}: {}: xy() = {:?}", o.name(), wa(), a.xy()));
+                    loc.class_if(!IS_SW && is_id && got_xy.is_none(), "observed:te_xy(identity)=None");
+                    if IS_SW {
+                        loc.class_if(so == 2 && xy.map_or(false, |(x, y)| x.is_zero() && y.is_zero()), "sw:point_(0,0)_is_2_torsion");
+                    }
                     res(o, loc, "aff.into_group", &a.into_group(), pi, true, &wa);
                     res(o, loc, "proj_from_aff", &Projective::<P>::from(a), pi, true, &wa);
                     let t: Projective<P> = a.into();
                     res(o, loc, "aff.into", &t, pi, true, &wa);
                     let na = -a;
-                    loc.check_at("neg_aff", o.aff_is(&na, &ng) && na.is_on_curve() && na == o.aff(&ng), || format!("{}: {}: -P = {} want {}", o.name(), wa(), na.raw(), o.show(&ng)));
+                    // (`==` between affine values is not used on the SW identity: it would pin the hidden coordinates)
+                    let sw_id = IS_SW && is_id;
+                    loc.check_at("neg_aff", o.aff_is(&na, &ng) && na.is_on_curve() && (sw_id || na == o.aff(&ng)), || format!("{}: {}: -P = {} want {}", o.name(), wa(), na.raw(), o.show(&ng)));
                     loc.check_at("aff==aff", a == a, || format!("{}: {}: P != P", o.name(), wa()));
                     for (p, _) in o.reps(pi) {
                         let w = || format!("P={} as {}", o.show(pi), p.raw());
@@ -375,7 +494,7 @@ macro_rules! engine {
                         let c3: Affine<P> = p.into();
                         for (site, c) in [("into_affine", c1), ("affine_from_proj", c2), ("proj.into", c3)] {
                             loc.check_at(site, o.aff_is(&c, pi) && c.is_on_curve(), || format!("{}: {}: -> {} want {}", o.name(), w(), c.raw(), o.show(pi)));
-                            loc.check_at(site, c == a, || format!("{}: {}: -> {} is not == the affine point {}", o.name(), w(), c.raw(), a.raw()));
+                            loc.check_at(site, sw_id || c == a, || format!("{}: {}: -> {} is not == the affine point {}", o.name(), w(), c.raw(), a.raw()));
                         }
                         loc.check_at("proj.is_zero", p.is_zero() == is_id, || format!("{}: {}: is_zero() = {}", o.name(), w(), p.is_zero()));
                         loc.check_at("proj==proj", p == p, || format!("{}: {}: P != P", o.name(), w()));
@@ -383,14 +502,70 @@ macro_rules! engine {
                         res(o, loc, "proj-proj", &(p - p), &id, true, &w);
                         res(o, loc, "proj+proj", &(p + (-p)), &id, true, &w);
                     }
+                    // ---- checked constructors on valid (on-curve, in-subgroup) points: they must return the point
+                    if o.in_subgroup(pi) {
+                        loc.class("ctor:checked_new_on_subgroup_point");
+                        if !(IS_SW && is_id) {
+                            match guarded(|| a.checked()) {
+                                Ok(c) => {
+                                    loc.check_at("Affine::new", o.aff_is(&c, pi), || format!("{}: {}: Affine::new(x, y) = {}", o.name(), wa(), c.raw()));
+                                }
+                                Err(e) => loc.fail_at("Affine::new", format!("{}: {}: Affine::new(x, y) on a point of the prime-order subgroup: {e}", o.name(), wa())),
+                            }
+                        }
+                        for (p, _) in o.reps(pi) {
+                            let w = || format!("P={} as {}", o.show(pi), p.raw());
+                            match guarded(|| p.checked()) {
+                                Ok(c) => res(o, loc, "Projective::new", &c, pi, false, &w),
+                                Err(e) => loc.fail_at("Projective::new", format!("{}: {}: Projective::new(coordinates) on a point of the prime-order subgroup: {e}", o.name(), w())),
+                            }
+                        }
+                    }
+                    // ---- further affine encodings of this point (SW identity with hidden x / y): every affine-taking
+                    // operation must treat them as the point they encode; only group-law results are judged
+                    for a2 in o.aff_alts(pi) {
+                        let w2 = || format!("P={} affine {}", o.show(pi), a2.raw());
+                        loc.class("sw:affine_identity_hidden_xy");
+                        loc.check_at("alt_aff.predicates", a2.is_on_curve() && AffineRepr::is_zero(&a2) == is_id && (a2.xy().is_none() == o.xy(pi).is_none()), || {
+                            format!("{}: {}: is_on_curve()={} is_zero()={} xy()={:?}", o.name(), w2(), a2.is_on_curve(), AffineRepr::is_zero(&a2), a2.xy())
+                        });
+                        res(o, loc, "alt_aff.into_group", &a2.into_group(), pi, true, &w2);
+                        res(o, loc, "alt_aff.proj_from_aff", &Projective::<P>::from(a2), pi, true, &w2);
+                        res(o, loc, "alt_aff.neg", &(-a2).into_group(), &ng, true, &w2);
+                        res(o, loc, "alt_aff.double", &a2.into_group().double(), &dbl, true, &w2);
+                        // 5 * P and 3 * P through the affine entry points of scalar multiplication
+                        let mut m3 = Some(id.clone());
+                        let mut m5 = Some(id.clone());
+                        for k in 0..5 {
+                            m5 = m5.and_then(|t| o.add(&t, pi));
+                            if k < 3 {
+                                m3 = m3.and_then(|t| o.add(&t, pi));
+                            }
+                        }
+                        if let (Some(m3), Some(m5)) = (m3, m5) {
+                            res(o, loc, "alt_aff.mul_bigint", &a2.mul_bigint([5u64]), &m5, true, &w2);
+                            res(o, loc, "alt_aff.mul", &(a2 * P::ScalarField::from(3u64)), &m3, true, &w2);
+                        }
+                        loc.check_at("alt_aff==proj", a2 == a.into_group() && a.into_group() == a2, || format!("{}: {}: not == the projective form of the same point", o.name(), w2()));
+                    }
                     if idx == 0 {
                         for (what, z) in <Projective<P> as Ctors>::identities() {
                             let w = || what.to_string();
                             res(o, loc, "identity_ctor", &z, &id, true, &w);
                         }
                         for (what, z) in <Affine<P> as Ctors>::identities() {
-                            loc.check_at("identity_ctor", o.aff_is(&z, &id) && AffineRepr::is_zero(&z) && z.is_on_curve() && z == o.aff(&id), || format!("{}: {what} = {}", o.name(), z.raw()));
+                            loc.check_at("identity_ctor", o.aff_is(&z, &id) && AffineRepr::is_zero(&z) && z.is_on_curve(), || format!("{}: {what} = {}", o.name(), z.raw()));
                         }
+                        // Default::default(): not documented to be the identity -> observed, not judged
+                        let (dp, da) = (<Projective<P> as Ctors>::default_value(), <Affine<P> as Ctors>::default_value());
+                        loc.class_if(o.proj_is(&dp, &id) && o.aff_is(&da, &id), "observed:default()_is_identity");
+                        // the fixed generator of the group: the configured generator (of order r by start-up validation)
+                        let gen = o.gen();
+                        let w = || "PrimeGroup::generator()".to_string();
+                        res(o, loc, "generator", &<Projective<P> as Ctors>::fixed_generator(), &gen, true, &w);
+                        let ga = <Affine<P> as Ctors>::fixed_generator();
+                        loc.check_at("generator", o.aff_is(&ga, &gen) && ga.is_on_curve(), || format!("{}: AffineRepr::generator() = {} want {}", o.name(), ga.raw(), o.show(&gen)));
+                        loc.class("ctor:generator");
                     }
                 });
             }
@@ -438,8 +613,12 @@ macro_rules! engine {
                 });
             }
 
-            /// normalize_batch on all vectors of length <= 3 over {O, O', P, P (Z != 1), 2P (Z != 1), -P}
-            pub fn batch<P: Cfg, O: Or<P>>(ctx: &mut Ctx, o: &O, pts: &[O::Pt]) {
+            /// normalize_batch, one sweep with two parts:
+            /// (a) all vectors of length <= 3 over {O, O', P, P (Z != 1), 2P (Z != 1), -P}, for every P of `pts`;
+            /// (b) batches of 5..=9 entries taken from DIFFERENT points: one case per pattern over
+            ///     {0: identity (Z = 0, every junk form in turn), 1: Z = 1, 2: generic Z}; the entry at position k encodes
+            ///     the point ring[(k + shift) % m] (identity excluded from the ring), generic Z varying with k
+            pub fn batch<P: Cfg, O: Or<P>>(ctx: &mut Ctx, o: &O, pts: &[O::Pt], ring: &[O::Pt], patterns: &[Vec<u8>], all_shifts: bool) {
                 let name = format!("{}/normalize_batch", o.name());
                 if !wanted(ctx, &name) || !scope_ok(ctx, o, pts) {
                     return;
@@ -447,7 +626,81 @@ macro_rules! engine {
                 const A: u64 = 6;
                 let per = vec_count(A, 3);
                 let n = pts.len() as u64;
-                ctx.sweep(&name, n * per, |idx, loc| {
+                // ---- tables of part (b)
+                let id = o.id();
+                let mut rpts: Vec<O::Pt> = Vec::new();
+                for q in ring {
+                    if *q != id && !rpts.contains(q) {
+                        rpts.push(q.clone());
+                    }
+                }
+                let idreps: Vec<Projective<P>> = o.reps(&id).into_iter().map(|r| r.0).collect();
+                let table: Vec<(Option<Projective<P>>, Vec<Projective<P>>)> = rpts
+                    .iter()
+                    .map(|q| {
+                        let r = o.reps(q);
+                        (r.iter().find(|x| x.1.z_one).map(|x| x.0), r.iter().filter(|x| !x.1.z_one).map(|x| x.0).collect())
+                    })
+                    .collect();
+                let usable = rpts.len() >= 3 && !idreps.is_empty() && table.iter().all(|t| t.0.is_some() && !t.1.is_empty());
+                ctx.validate(usable, &format!("{name}: mixed batches need >= 3 finite points, each with a Z = 1 and a Z != 1 representative"));
+                if !usable {
+                    return;
+                }
+                let m = rpts.len() as u64;
+                let np = patterns.len() as u64;
+                let shifts = if all_shifts { m } else { 1 };
+                let mixed = |idx: u64, loc: &mut Loc| {
+                    let [pk, sh] = unrank(idx, [np, shifts]);
+                    let pat = &patterns[pk as usize];
+                    let mut input: Vec<Projective<P>> = Vec::with_capacity(pat.len());
+                    let mut want: Vec<&O::Pt> = Vec::with_capacity(pat.len());
+                    let mut used: Vec<usize> = Vec::new();
+                    for (k, kind) in pat.iter().enumerate() {
+                        let j = ((k as u64 + sh) % m) as usize;
+                        match kind {
+                            0 => {
+                                input.push(idreps[k % idreps.len()]);
+                                want.push(&id);
+                            }
+                            1 => {
+                                input.push(table[j].0.unwrap());
+                                want.push(&rpts[j]);
+                            }
+                            _ => {
+                                let g = &table[j].1;
+                                input.push(g[k % g.len()]);
+                                want.push(&rpts[j]);
+                            }
+                        }
+                        if *kind != 0 && !used.contains(&j) {
+                            used.push(j);
+                        }
+                    }
+                    let has = |t: u8| pat.contains(&t);
+                    loc.class_if(pat.len() >= 5 && used.len() >= 2, "batch:len>=5_distinct_points");
+                    loc.class_if(pat.len() >= 5 && used.len() >= 2 && has(0) && has(1) && has(2), "batch:len>=5_mixes_O_Z=1_genericZ");
+                    loc.class_if(has(0) && pat[0] == 0, "batch:zero_first");
+                    loc.class_if(has(0) && pat[pat.len() - 1] == 0, "batch:zero_last");
+                    loc.class_if(pat.windows(2).any(|w| w[0] == 0 && w[1] == 0), "batch:adjacent_zeros");
+                    let w = || format!("batch {:?}", input.iter().map(|p| p.raw()).collect::<Vec<_>>());
+                    if loc.sampling() {
+                        loc.sample(format!("{}: pattern {:?} shift {} {}", o.name(), pat, sh, w()));
+                    }
+                    let out = Projective::<P>::normalize_batch(&input);
+                    let out2 = <Projective<P> as ScalarMul>::batch_convert_to_mul_base(&input);
+                    let mut ok = out.len() == pat.len() && out2.len() == pat.len();
+                    if ok {
+                        for ((wp, a), a2) in want.iter().zip(out.iter()).zip(out2.iter()) {
+                            ok &= o.aff_is(a, wp) && a.is_on_curve() && o.aff_is(a2, wp);
+                        }
+                    }
+                    loc.check_at("normalize_batch", ok, || format!("{}: {}: got {:?} want {:?}", o.name(), w(), out.iter().map(|a| a.raw()).collect::<Vec<_>>(), want.iter().map(|q| o.show(q)).collect::<Vec<_>>()));
+                };
+                ctx.sweep(&name, n * per + np * shifts, |idx, loc| {
+                    if idx >= n * per {
+                        return mixed(idx - n * per, loc);
+                    }
                     let [vi, i] = unrank(idx, [per, n]);
                     let pi = &pts[i as usize];
                     let id = o.id();
@@ -468,13 +721,76 @@ macro_rules! engine {
                     }
                     let out = Projective::<P>::normalize_batch(&input);
                     let out2 = <Projective<P> as ScalarMul>::batch_convert_to_mul_base(&input);
-                    let mut ok = out.len() == v.len() && out2 == out;
+                    let mut ok = out.len() == v.len() && out2.len() == v.len();
                     if ok {
-                        for (k, a) in v.iter().zip(out.iter()) {
-                            ok &= o.aff_is(a, alpha[*k].1) && a.is_on_curve() && *a == o.aff(alpha[*k].1);
+                        for ((k, a), a2) in v.iter().zip(out.iter()).zip(out2.iter()) {
+                            ok &= o.aff_is(a, alpha[*k].1) && a.is_on_curve() && o.aff_is(a2, alpha[*k].1);
                         }
                     }
                     loc.check_at("normalize_batch", ok, || format!("{}: {}: got {:?}", o.name(), w(), out.iter().map(|a| a.raw()).collect::<Vec<_>>()));
+                });
+            }
+
+            /// normalize_batch / batch_convert_to_mul_base on LONG batches (a blocked implementation with a reused scratch
+            /// buffer is a realistic refactor): entry i encodes P_i = (i+1)*G (model: repeated oracle addition) with
+            /// Z = i + 2 - all different, none equal to 1 - and the identity (every junk form in turn) sits at positions
+            /// 0, 1023, 1024 and last.  One case per length.
+            pub fn batch_large<P: Cfg, O: Or<P>>(ctx: &mut Ctx, o: &O, lens: &[usize]) {
+                let name = format!("{}/normalize_batch_large", o.name());
+                if !wanted(ctx, &name) {
+                    return;
+                }
+                let id = o.id();
+                let g = o.gen();
+                let maxlen = lens.iter().copied().max().unwrap_or(0);
+                let mut model: Vec<O::Pt> = Vec::with_capacity(maxlen);
+                let mut acc = id.clone();
+                for _ in 0..maxlen {
+                    match o.add(&acc, &g) {
+                        Some(x) => acc = x,
+                        None => {
+                            ctx.validate(false, &format!("{name}: oracle law defined on the multiples of G"));
+                            return;
+                        }
+                    }
+                    model.push(acc.clone());
+                }
+                ctx.validate(model.iter().all(|q| *q != id), &format!("{name}: (i+1)*G != O for i < {maxlen}"));
+                let input: Vec<Projective<P>> = model.iter().enumerate().map(|(i, q)| o.rep_z(q, i as u64 + 2)).collect();
+                ctx.validate(input.iter().zip(&model).all(|(p, q)| o.proj_is(p, q)), &format!("{name}: inputs decode to the model points"));
+                let idreps: Vec<Projective<P>> = o.reps(&id).into_iter().map(|r| r.0).collect();
+                ctx.sweep(&name, lens.len() as u64, |idx, loc| {
+                    let len = lens[idx as usize];
+                    let mut v: Vec<Projective<P>> = input[..len].to_vec();
+                    let mut want: Vec<&O::Pt> = model[..len].iter().collect();
+                    for (k, pos) in [0usize, 1023, 1024, len - 1].into_iter().enumerate() {
+                        if pos < len {
+                            v[pos] = idreps[k % idreps.len()];
+                            want[pos] = &id;
+                        }
+                    }
+                    loc.class_if(len > 1024, "normalize_batch:len>1024");
+                    loc.class_if(len == 1024, "normalize_batch:len=1024");
+                    loc.class("batch:zero_in_batch");
+                    if loc.sampling() {
+                        loc.sample(format!("{}: normalize_batch of {len} entries (i+1)*G with Z = i+2, identity at 0, 1023, 1024, last", o.name()));
+                    }
+                    let out = Projective::<P>::normalize_batch(&v);
+                    let out2 = <Projective<P> as ScalarMul>::batch_convert_to_mul_base(&v);
+                    loc.ops(2 * len as u64);
+                    let mut bad: Option<usize> = None;
+                    if out.len() == len && out2.len() == len {
+                        for i in 0..len {
+                            if !(o.aff_is(&out[i], want[i]) && out[i].is_on_curve() && o.aff_is(&out2[i], want[i])) {
+                                bad = Some(i);
+                                break;
+                            }
+                        }
+                    }
+                    loc.check_at("normalize_batch_large", out.len() == len && out2.len() == len && bad.is_none(), || match bad {
+                        Some(i) => format!("{}: batch of {len}: entry {i} = {} -> {} / {} want {}", o.name(), v[i].raw(), out[i].raw(), out2[i].raw(), o.show(want[i])),
+                        None => format!("{}: batch of {len}: {} / {} results", o.name(), out.len(), out2.len()),
+                    });
                 });
             }
         }
@@ -679,6 +995,29 @@ impl<P: SWCurveConfig, M: Br<P::BaseField>> swe::Or<P> for ToySw<P, M> {
             Pt::A(x, y) => sw::Affine::new_unchecked(self.lib(x), self.lib(y)),
         }
     }
+    fn aff_alts(&self, a: &usize) -> Vec<sw::Affine<P>> {
+        match self.g.pts[*a] {
+            Pt::O => sw_hidden_identities::<P>(),
+            _ => Vec::new(),
+        }
+    }
+    fn gen(&self) -> usize {
+        self.gen
+    }
+    fn in_subgroup(&self, a: &usize) -> bool {
+        self.in_sub[*a]
+    }
+    fn rep_z(&self, a: &usize, z: u64) -> sw::Projective<P> {
+        let f = &self.m.f;
+        let z = f.from_u64(z);
+        match self.g.pts[*a] {
+            Pt::O => sw::Projective::new_unchecked(self.lib(f.one()), self.lib(f.one()), self.lib(f.zero())),
+            Pt::A(x, y) => {
+                let z2 = f.sq(z);
+                sw::Projective::new_unchecked(self.lib(f.mul(x, z2)), self.lib(f.mul(y, f.mul(z2, z))), self.lib(z))
+            }
+        }
+    }
     fn reps(&self, a: &usize) -> Vec<(sw::Projective<P>, Tag)> {
         let f = &self.m.f;
         match self.g.pts[*a] {
@@ -778,6 +1117,18 @@ impl<P: TECurveConfig, M: Br<P::BaseField>> tee::Or<P> for ToyTe<P, M> {
     fn aff(&self, a: &usize) -> te::Affine<P> {
         let (x, y) = self.xy_m(*a);
         te::Affine::new_unchecked(self.lib(x), self.lib(y))
+    }
+    fn gen(&self) -> usize {
+        self.gen
+    }
+    fn in_subgroup(&self, a: &usize) -> bool {
+        self.in_sub[*a]
+    }
+    fn rep_z(&self, a: &usize, z: u64) -> te::Projective<P> {
+        let f = &self.m.f;
+        let z = f.from_u64(z);
+        let (x, y) = self.xy_m(*a);
+        te::Projective::new_unchecked(self.lib(f.mul(x, z)), self.lib(f.mul(y, z)), self.lib(f.mul(f.mul(x, y), z)), self.lib(z))
     }
     fn reps(&self, a: &usize) -> Vec<(te::Projective<P>, Tag)> {
         let f = &self.m.f;
@@ -881,7 +1232,8 @@ where
     swe::pairs(ctx, &o, &pts, true);
     swe::unary(ctx, &o, &pts);
     swe::sums(ctx, &o, &o.subset());
-    swe::batch(ctx, &o, &pts);
+    let (pats, all_shifts) = (kind_patterns(5, 9), ctx.thorough());
+    swe::batch(ctx, &o, &pts, &o.subset(), &pats, all_shifts);
 }
 fn run_toy_te<P: TECurveConfig>(ctx: &mut Ctx, name: &str)
 where
@@ -896,7 +1248,8 @@ where
     tee::pairs(ctx, &o, &pts, true);
     tee::unary(ctx, &o, &pts);
     tee::sums(ctx, &o, &o.subset());
-    tee::batch(ctx, &o, &pts);
+    let (pats, all_shifts) = (kind_patterns(5, 9), ctx.thorough());
+    tee::batch(ctx, &o, &pts, &o.subset(), &pats, all_shifts);
 }
 
 // =====================================================================================================
@@ -1036,12 +1389,31 @@ fn run_toy_sw_ext<P: SWCurveConfig, M: Br<P::BaseField>>(ctx: &mut Ctx, name: &s
         return;
     }
     let Some(o) = toy_sw_ext::<P, M>(ctx, name, model, all_z) else { return };
+    run_toy_sw_handmade(ctx, o);
+}
+fn run_toy_sw_handmade<P: SWCurveConfig, M: Br<P::BaseField>>(ctx: &mut Ctx, o: ToySw<P, M>) {
     let pts = o.all();
-    ctx.bound(&format!("ext/{name}"), format!("#E={} all ordered pairs; {} Z values {:?}", pts.len(), o.zs.len(), if o.zs.len() > 8 { Vec::new() } else { o.zs.clone() }));
+    ctx.bound(&o.name, format!("#E={} all ordered pairs; {} Z values {:?}", pts.len(), o.zs.len(), if o.zs.len() > 8 { Vec::new() } else { o.zs.clone() }));
     swe::pairs(ctx, &o, &pts, true);
     swe::unary(ctx, &o, &pts);
     swe::sums(ctx, &o, &o.subset());
-    swe::batch(ctx, &o, &pts);
+    let (pats, all_shifts) = (kind_patterns(5, 9), ctx.thorough());
+    swe::batch(ctx, &o, &pts, &o.subset(), &pats, all_shifts);
+}
+
+// y^2 = x^3 + 2x over F_29 (COEFF_B = 0): 26 = 2 * 13 points, (0, 0) is a genuine point of order 2.  Declared by
+// hand like the extension-field toys; validated at start-up by brute-force point counting with the model.
+ext_sw!(SwP29A2B0, D29, D13, 2, "7", MontFp!("2"), MontFp!("0"), MontFp!("6"), MontFp!("5"));
+fn run_toy_sw_b0(ctx: &mut Ctx) {
+    let name = "SwP29A2B0";
+    if !wanted_prefix(ctx, &format!("toy/{name}")) {
+        return;
+    }
+    let Some(mut o) = toy_sw_ext::<SwP29A2B0, PrimeModel>(ctx, name, PrimeModel { p: 29 }, true) else { return };
+    o.name = format!("toy/{name}");
+    let t = o.g.index.get(&Pt::A(0, 0)).copied();
+    ctx.validate(o.m.b == 0 && t.map_or(false, |t| o.ord[t] == 2 && o.g.add[t][t] == o.g.id && !o.in_sub[t]), &format!("{name}: COEFF_B = 0 and (0, 0) is a point of order 2 outside the subgroup"));
+    run_toy_sw_handmade(ctx, o);
 }
 
 // =====================================================================================================
@@ -1092,6 +1464,13 @@ fn sw_law_mul<P: SWCurveConfig>(p: &SPt<P>, k: &BigUint) -> SPt<P> {
 pub struct ShipSw<P: SWCurveConfig> {
     pub name: String,
     pub zs: Vec<BF<P>>,
+    /// alphabet points known (by the oracle law) to lie in the prime-order subgroup
+    pub sub: Vec<SPt<P>>,
+}
+/// the SW affine identity with non-zero hidden coordinates (the fields are public)
+fn sw_hidden_identities<P: SWCurveConfig>() -> Vec<sw::Affine<P>> {
+    let one = BF::<P>::ONE;
+    vec![sw::Affine::<P> { x: one, y: one, infinity: true }, sw::Affine::<P> { x: P::GENERATOR.x, y: P::GENERATOR.y, infinity: true }]
 }
 impl<P: SWCurveConfig> swe::Or<P> for ShipSw<P> {
     type Pt = SPt<P>;
@@ -1111,6 +1490,29 @@ impl<P: SWCurveConfig> swe::Or<P> for ShipSw<P> {
         match a {
             None => sw::Affine::identity(),
             Some((x, y)) => sw::Affine::new_unchecked(*x, *y),
+        }
+    }
+    fn aff_alts(&self, a: &SPt<P>) -> Vec<sw::Affine<P>> {
+        if a.is_none() {
+            sw_hidden_identities::<P>()
+        } else {
+            Vec::new()
+        }
+    }
+    fn gen(&self) -> SPt<P> {
+        Some((P::GENERATOR.x, P::GENERATOR.y))
+    }
+    fn in_subgroup(&self, a: &SPt<P>) -> bool {
+        self.sub.contains(a)
+    }
+    fn rep_z(&self, a: &SPt<P>, z: u64) -> sw::Projective<P> {
+        let z = BF::<P>::from(z);
+        match a {
+            None => sw::Projective::new_unchecked(BF::<P>::ONE, BF::<P>::ONE, BF::<P>::ZERO),
+            Some((x, y)) => {
+                let z2 = z * z;
+                sw::Projective::new_unchecked(*x * z2, *y * z2 * z, z)
+            }
         }
     }
     fn reps(&self, a: &SPt<P>) -> Vec<(sw::Projective<P>, Tag)> {
@@ -1205,6 +1607,7 @@ fn ship_sw<P: SWCurveConfig>(ctx: &mut Ctx, short: &str) {
     ctx.validate(sw_law_add::<P>(&half, &half) == g, &format!("{name}: 2*((r+1)/2)*G = G by the oracle law"));
     let mut pts: Vec<SPt<P>> = vec![None, g, sw_law_neg::<P>(&g), g2, g3];
     push_new(&mut pts, half);
+    let sub = pts.clone();
     // further curve points from x = 0, 1, 2, ... (validated with the oracle equation)
     let mut cands: Vec<SPt<P>> = Vec::new();
     let mut x = 0u64;
@@ -1283,14 +1686,43 @@ fn ship_sw<P: SWCurveConfig>(ctx: &mut Ctx, short: &str) {
     for p in &pts {
         ctx.validate(sw_on_curve::<P>(p), &format!("{name}: alphabet point on the curve"));
     }
+    // alphabet floors: the derived members are counted, and a curve with cofactor > 1 that ends up without any
+    // point outside the subgroup is a machinery error (coverage must not shrink silently)
+    ctx.add_class("ship:sw_points_outside_subgroup", n_out);
+    ctx.add_class("ship:sw_points_of_small_order", n_tors);
+    if h != one {
+        ctx.add_class("ship:sw_curves_with_cofactor>1", 1);
+        ctx.validate(n_out + n_tors > 0, &format!("{name}: cofactor > 1 but the alphabet has no point outside the prime-order subgroup"));
+    }
     let m1 = BF::<P>::ZERO - BF::<P>::ONE;
-    let o = ShipSw::<P> { name: name.clone(), zs: vec![BF::<P>::ONE, BF::<P>::ONE + BF::<P>::ONE, m1] };
-    ctx.bound(&name, format!("{} points (O, G, -G, 2G, 3G, ((r+1)/2)G, {} outside the subgroup, {} of small order, rest: first new point from x=0,1,..) x Z in {{1,2,-1}} x identity as (1,1,0),(0,0,0),(gx,gy+1,0); a=0:{} ext_degree:{}", pts.len(), n_out, n_tors, P::COEFF_A.is_zero(), BF::<P>::extension_degree()));
+    let mut zs = vec![BF::<P>::ONE, BF::<P>::ONE + BF::<P>::ONE, m1];
+    let ext = ext_zs::<BF<P>>();
+    if BF::<P>::extension_degree() > 1 {
+        ctx.validate(ext.len() == 2 && ext[0].to_base_prime_field_elements().all(|c| !c.is_zero()) && ext[1].to_base_prime_field_elements().nth(1).map_or(false, |c| !c.is_zero()), &format!("{name}: extension-field Z values have the intended shape"));
+        ctx.add_class("ship:sw_ext_field_generic_Z", 1);
+    }
+    zs.extend(ext);
+    let o = ShipSw::<P> { name: name.clone(), zs, sub };
+    ctx.bound(&name, format!("{} points (O, G, -G, 2G, 3G, ((r+1)/2)G, {} outside the subgroup, {} of small order, rest: first new point from x=0,1,..) x Z in {{1,2,-1{}}} x identity as (1,1,0),(0,0,0),(gx,gy+1,0); affine identity also as (1,1,inf),(gx,gy,inf); a=0:{} ext_degree:{}", pts.len(), n_out, n_tors, if o.zs.len() > 3 { ", 2+3u[+5u^2], u" } else { "" }, P::COEFF_A.is_zero(), BF::<P>::extension_degree()));
     ctx.add_class("ship:sw_curves", 1);
     swe::pairs(ctx, &o, &pts, true);
     swe::unary(ctx, &o, &pts);
     swe::sums(ctx, &o, &pts[..pts.len().min(8)]);
-    swe::batch(ctx, &o, &pts);
+    swe::batch(ctx, &o, &pts, &pts, &ship_patterns(), false);
+    if LARGE_BATCH_CURVES.contains(&short) {
+        swe::batch_large(ctx, &o, &LARGE_BATCH_LENS);
+    }
+}
+/// extension fields only: Z = 2 + 3u [+ 5u^2 ...] (every coordinate non-zero) and Z = u (outside the prime subfield)
+fn ext_zs<F: Field>() -> Vec<F> {
+    let d = F::extension_degree() as usize;
+    if d < 2 {
+        return Vec::new();
+    }
+    let small = [2u64, 3, 5, 7, 11, 13, 17, 19, 23, 29, 31, 37, 41, 43, 47, 53, 59, 61];
+    let generic = F::from_base_prime_field_elems((0..d).map(|i| F::BasePrimeField::from(small[i % small.len()])));
+    let u = F::from_base_prime_field_elems((0..d).map(|i| F::BasePrimeField::from((i == 1) as u64)));
+    [generic, u].into_iter().flatten().collect()
 }
 
 // ---- twisted Edwards
@@ -1319,6 +1751,8 @@ fn te_law_mul<P: TECurveConfig>(p: &TPt<P>, k: &BigUint) -> Option<TPt<P>> {
 pub struct ShipTe<P: TECurveConfig> {
     pub name: String,
     pub zs: Vec<BF<P>>,
+    /// alphabet points known (by the oracle law) to lie in the prime-order subgroup
+    pub sub: Vec<TPt<P>>,
 }
 impl<P: TECurveConfig> tee::Or<P> for ShipTe<P> {
     type Pt = TPt<P>;
@@ -1336,6 +1770,16 @@ impl<P: TECurveConfig> tee::Or<P> for ShipTe<P> {
     }
     fn aff(&self, a: &TPt<P>) -> te::Affine<P> {
         te::Affine::new_unchecked(a.0, a.1)
+    }
+    fn gen(&self) -> TPt<P> {
+        (P::GENERATOR.x, P::GENERATOR.y)
+    }
+    fn in_subgroup(&self, a: &TPt<P>) -> bool {
+        self.sub.contains(a)
+    }
+    fn rep_z(&self, a: &TPt<P>, z: u64) -> te::Projective<P> {
+        let z = BF::<P>::from(z);
+        te::Projective::new_unchecked(a.0 * z, a.1 * z, a.0 * a.1 * z, z)
     }
     fn reps(&self, a: &TPt<P>) -> Vec<(te::Projective<P>, Tag)> {
         let is_id = *a == tee::Or::<P>::id(self);
@@ -1401,6 +1845,7 @@ fn ship_te<P: TECurveConfig>(ctx: &mut Ctx, short: &str) {
     ctx.validate(te_law_add::<P>(&half, &half) == Some(g), &format!("{name}: 2*((r+1)/2)*G = G by the oracle law"));
     let mut pts: Vec<TPt<P>> = vec![id, g, ng, g2, g3];
     push_new(&mut pts, half);
+    let sub = pts.clone();
     let mut n_out = 0;
     let mut n_tors = 0;
     if complete {
@@ -1449,14 +1894,26 @@ fn ship_te<P: TECurveConfig>(ctx: &mut Ctx, short: &str) {
     for p in &pts {
         ctx.validate(te_on_curve::<P>(p), &format!("{name}: alphabet point on the curve"));
     }
+    ctx.add_class("ship:te_points_outside_subgroup", n_out);
+    ctx.add_class("ship:te_points_of_2power_order", n_tors);
+    if complete && h != one {
+        // (incomplete parameters: only the prime-order subgroup is in scope, nothing to lose)
+        ctx.add_class("ship:te_complete_curves_with_cofactor>1", 1);
+        ctx.validate(n_out + n_tors > 0, &format!("{name}: complete curve with cofactor > 1 but the alphabet has no point outside the prime-order subgroup"));
+    }
     let m1 = BF::<P>::ZERO - BF::<P>::ONE;
-    let o = ShipTe::<P> { name: name.clone(), zs: vec![BF::<P>::ONE, BF::<P>::ONE + BF::<P>::ONE, m1] };
+    let mut zs = vec![BF::<P>::ONE, BF::<P>::ONE + BF::<P>::ONE, m1];
+    zs.extend(ext_zs::<BF<P>>());
+    let o = ShipTe::<P> { name: name.clone(), zs, sub };
     ctx.bound(&name, format!("complete={complete}; {} points (O, G, -G, 2G, 3G, ((r+1)/2)G, {} outside the subgroup, {} of 2-power order) x Z in {{1,2,-1}} (identity too)", pts.len(), n_out, n_tors));
     ctx.add_class(if complete { "ship:te_complete" } else { "ship:te_subgroup_only" }, 1);
     tee::pairs(ctx, &o, &pts, true);
     tee::unary(ctx, &o, &pts);
     tee::sums(ctx, &o, &pts[..pts.len().min(8)]);
-    tee::batch(ctx, &o, &pts);
+    tee::batch(ctx, &o, &pts, &pts, &ship_patterns(), false);
+    if LARGE_BATCH_CURVES.contains(&short) {
+        tee::batch_large(ctx, &o, &LARGE_BATCH_LENS);
+    }
 }
 
 // =====================================================================================================
@@ -1715,15 +2172,29 @@ fn main() {
         "te:order2",
         "te:order4",
         "batch:zero_in_batch",
+        "batch:len>=5_distinct_points",
+        "batch:len>=5_mixes_O_Z=1_genericZ",
+        "batch:adjacent_zeros",
+        "normalize_batch:len>1024",
+        "sw:point_(0,0)_is_2_torsion",
+        "sw:affine_identity_hidden_xy",
+        "ctor:checked_new_on_subgroup_point",
+        "ctor:generator",
         "ship:sw_curves",
+        "ship:sw_ext_field_generic_Z",
+        "ship:sw_points_outside_subgroup",
+        "ship:te_points_outside_subgroup",
         "ship:te_complete",
     ]);
     ctx.assume("oracle: textbook affine chord-and-tangent / affine Edwards law with explicit case split; toy curves on u64 model arithmetic (points enumerated by brute force, full addition table), shipped curves on the field's own add/sub/mul/inverse (C01/C02's job) and the COEFF_* constants (C16's job)");
     ctx.assume("projective results are decoded by the model: X = x*Z^2, Y = y*Z^3 (SW), X = x*Z, Y = y*Z, T*Z = X*Y, Z != 0 (TE); never by the library's into_affine");
     ctx.assume("incomplete twisted-Edwards parameters (a non-square or d square): only the prime-order subgroup is enumerated, as the property states");
     ctx.assume("extension-field toy curves SwQ7A0/SwQ13A/SwC7A0/SwC7A are defined in c03.rs and validated by brute-force point counting; their Frobenius/sqrt constants are not exercised by any C03 operation");
-    ctx.assume("shipped curves: the point outside the subgroup and the small-order points are derived with get_point_from_{x,y}_unchecked (validated with the oracle curve equation) and oracle scalar multiplication by n/2^s, n/3^s using COFACTOR; a curve whose COFACTOR does not give such points merely loses those alphabet members");
-    ctx.bound("operators", "aff±aff, aff±&aff, aff±proj, aff±&proj, proj±aff, proj±&aff, proj±=aff, proj±=&aff, {proj,&proj}±{proj,&proj,&mut proj}, proj±={proj,&proj,&mut proj}, ==/!= on every pair of representations, double, double_in_place, neg, neg_in_place, -affine, into_affine/From/Into both ways, is_zero, xy/x/y, is_on_curve of results, identity constructors, Sum<Projective|&Projective|Affine|&Affine> over all vectors of length <= 3 of a <=12-point subset, normalize_batch / batch_convert_to_mul_base on all vectors of length <= 3 over {O, O', P, P(Z!=1), 2P(Z!=1), -P}");
+    ctx.assume("shipped curves: the point outside the subgroup and the small-order points are derived with get_point_from_{x,y}_unchecked (validated with the oracle curve equation) and oracle scalar multiplication by n/2^s, n/3^s using COFACTOR; the number of such members is recorded per run (classes ship:*_points_*), and a curve with cofactor > 1 (TE: complete law) left without any point outside the subgroup is a machinery error");
+    ctx.assume("SwP29A2B0 (y^2 = x^3 + 2x over F_29, COEFF_B = 0, (0,0) of order 2) is declared in c03.rs and validated by brute-force point counting");
+    ctx.assume("`==` between two AFFINE values is judged on canonical encodings of finite points only (the hidden coordinates of the SW affine identity are not pinned); identity results are judged by the infinity flag / is_zero() / model decode. Default::default() and xy() of the TE identity are observed (classes observed:*), not judged: no rustdoc fixes them");
+    ctx.assume("checked constructors (Projective::new / Affine::new) are called on points of the prime-order subgroup only; their behaviour on invalid input is C12's subject");
+    ctx.bound("operators", "aff±aff, aff±&aff, aff±proj, aff±&proj, proj±aff, proj±&aff, proj±=aff, proj±=&aff, {proj,&proj}±{proj,&proj,&mut proj}, proj±={proj,&proj,&mut proj}, ==/!= on every pair of representations, double, double_in_place, neg, neg_in_place, -affine, into_affine/From/Into both ways, is_zero, xy/x/y, is_on_curve of results, identity constructors, Sum<Projective|&Projective|Affine|&Affine> over all vectors of length <= 3 of a <=12-point subset, normalize_batch / batch_convert_to_mul_base on all vectors of length <= 3 over {O, O', P, P(Z!=1), 2P(Z!=1), -P} and on batches of 5..9 entries of different points (toy: every pattern over {O, Z=1, generic Z}^L, L=5..9, point ring = the <=12-point subset, all rotations of the ring in the thorough tier; shipped: 7 fixed patterns; bls12_381 G1 and ed_on_bls12_381: batches of 1023, 1024, 1025, 2049, 3000 entries (i+1)*G with Z = i+2, identity at positions 0, 1023, 1024, last); checked constructors new() on subgroup points, generator(); SW affine identity with hidden coordinates (1,1),(gx,gy) as operand of every affine-taking operator, into_group, neg, double, mul");
     ctx.bound("result_checks", "every projective result of every operator form: model decode == model sum, is_zero() <=> model identity, into_affine() == model point, is_on_curve()");
     ctx.bound("toy_Z", if ctx.quick() { "all of F_p^* for SwP13A0B2, SwP13A0B4, SwP31A2B2, TeP13; {1,2,g,p-1} otherwise; 5 values for the extension-field toys" } else { "all of F_p^* for p <= 61 curves and TeP13, all of F_49^* for SwQ7A0; {1,2,g,p-1} resp. 5 values otherwise" });
 
@@ -1740,6 +2211,7 @@ fn main() {
     }
     algebra_mc::toy_sw_curves!(toy_sw, &mut ctx);
     algebra_mc::toy_te_curves!(toy_te, &mut ctx);
+    run_toy_sw_b0(&mut ctx);
     // ---- E: toy curves over extension fields
     let all_z = ctx.thorough();
     run_toy_sw_ext::<SwQ7A0, Fp2Model>(&mut ctx, "SwQ7A0", Fp2Model { p: 7, beta: 6 }, all_z);
